@@ -94,6 +94,12 @@ def text_layout(ctx, r, F):
                 g = seen.get(fld)
                 if g is None or g[0] != a or g[1] not in kinds[fld]:
                     bad.append("%s: field %s written at %s with %s; reference offset %d with %s" % (name, fld, g and g[0], g and g[1], a, kinds[fld][0]))
+        # the writer accepts a buffer of exactly the advertised length of this prefix mode (else format-then-parse cannot round-trip)
+        from . import c14 as _c14
+        Kmode = ("cpath", "hash::public::FuzzyHashType::" + ("LEN_IN_STR" if mode == "WithVersion" else "LEN_IN_STR_EXCEPT_PREFIX"))
+        for rec in [rec0] + rec0.get("alts", []):
+            if not _c14._gate_ok(rec.get("gate"), Kmode, False, envs):
+                bad.append("the size gate of prefix mode %s is %s; reference out.len() < %s" % (mode, rec.get("gate"), Kmode[1].rsplit("::", 1)[-1]))
         ctx.ob(r, ("store_into_str_bytes/" + mode, "field-windows"), not bad, "; ".join(bad[:3]), cfg=F.key, where=W["body"].where())
     # ---- reader
     if RM is not None:
